@@ -218,6 +218,24 @@ def Inst.crash (I : Inst) : Option String :=
   if I.nonRunning.any (fun t => (I.task t).state == .scheduled &&
       (I.keys t).any (fun k => !I.hasVar t k.1 k.2)) then some "AttributeError" else none
 
+/-! ### Well-formedness (hypotheses of the theorems; checked by the driver on every
+instance the harness extracts from the real call) -/
+
+/-- A RUNNING task's previous placement names a worker of this invocation and one of the
+task's own strategies (otherwise the code raises `ValueError` / misses the dict key). -/
+def Inst.wfRunning (I : Inst) : Bool :=
+  (List.range I.nT).all (fun t => !I.running t ||
+    (decide ((I.task t).prevW < I.nW) && decide ((I.task t).prevS < (I.task t).nS)))
+
+/-- No more parents with variables than parents in the graph (true when unique names are
+unique: `tasks_to_variables` is keyed by them). -/
+def Inst.wfParents (I : Inst) : Bool :=
+  (List.range I.nT).all (fun c => decide ((I.parentVars c).length ≤ I.nParents c))
+
+def Inst.wfOffered (I : Inst) : Bool := decide (I.nOffered ≤ I.nT)
+
+def Inst.wf (I : Inst) : Bool := I.wfRunning && I.wfParents && I.wfOffered
+
 /-! ### Names (identical to the f-strings of the code) -/
 
 def Inst.tname (I : Inst) (t : Nat) : String := (I.task t).uniq
@@ -403,13 +421,18 @@ structure Decision where
   placed : Option (Nat × Nat × Int)   -- worker index, strategy index, start time
   deriving Repr, DecidableEq
 
+/-- One step of the scan over workers: the inner loop over strategies stops at the first
+hit (`break`), a later worker overrides an earlier hit. -/
+def Inst.scanStep (I : Inst) (σ : Var → Int) (t : Nat) (acc : Option (Nat × Nat)) (w : Nat) :
+    Option (Nat × Nat) :=
+  match (List.range (I.task t).nS).find? (fun s => I.hasVar t w s && σ (.x t w s) == 1) with
+  | some s => some (w, s)
+  | none => acc
+
 /-- The scan over workers (outer, last hit wins) and strategies (inner, first hit,
 `break`). -/
 def Inst.chosen (I : Inst) (σ : Var → Int) (t : Nat) : Option (Nat × Nat) :=
-  (List.range I.nW).foldl (fun acc w =>
-    match (List.range (I.task t).nS).find? (fun s => I.hasVar t w s && σ (.x t w s) == 1) with
-    | some s => some (w, s)
-    | none => acc) none
+  (List.range I.nW).foldl (I.scanStep σ t) none
 
 def Inst.decodeTask (I : Inst) (σ : Var → Int) (t : Nat) : Decision :=
   ⟨t, (I.chosen σ t).map (fun ws => (ws.1, ws.2, σ (.start t)))⟩
